@@ -159,3 +159,50 @@ Definition r_chunks_range (ps : list (list Z)) : list Z := enc_atoms (range_chun
 Definition r_chunks_sig (s1 s2 : Z) : list Z := enc_atoms (sig_chunks (sig s1 s2)).
 Definition r_chunks_ped (g h : Z) (gs : list Z) : list Z :=
   enc_atoms (if g =? 1 then A1 (fq h) :: map A1 (fqs gs) else A2 (fq h) :: map A2 (fqs gs)).
+
+(** balances and amounts *)
+Definition enc_result (r : result Z) : list Z :=
+  match r with Ok a => [1; a] | Err (AmountTooLarge x) => [2; x] | Err InsufficientFunds => [3] end.
+Definition r_try_new (x : Z) : list Z := enc_result (balance_try_new x).
+Definition r_pay_merchant (x : Z) : list Z := enc_result (pay_merchant x).
+Definition r_pay_customer (x : Z) : list Z := enc_result (pay_customer x).
+Definition r_apply (cb mb a : Z) : list Z :=
+  match apply_payment cb mb a with Ok (c, m) => [1; c; m] | Err (AmountTooLarge x) => [2; x] | Err InsufficientFunds => [3] end.
+Definition r_try_add (debug : Z) (mb cb : Z) : list Z :=
+  match balance_decode mb, balance_decode cb with
+  | Some m, Some c => match try_add (if debug =? 1 then Debug else Release) m c with
+                      | Panics => [9] | Val r => enc_result r end
+  | _, _ => [8]
+  end.
+Definition r_amount_scalar (a : Z) : list Z := [v (amount_scalar a)].
+
+(** nonces, revocation pairs, channel ids, contexts - with the Gallina SHA3 *)
+From ZK Require Import Model.Ids Model.Sha3 Model.Merchant.
+Definition enc_scalar (x : K) : list Z := Z_to_le 32 (v x).
+Definition r_nonce_new (draws : list Z) : list Z :=
+  match nonce_new closeK (fqs draws) with Some n => [1; v n] | None => [0] end.
+Definition r_nonce_decode (n : Z) : list Z :=
+  if n <? q_bls then match nonce_decode closeK (fq n) with Some x => [1; v x] | None => [0] end else [0].
+Definition r_revpair_new (secret : Z) : list Z :=
+  match revpair_new q_bls sha3_256_z enc_scalar (fq secret) with
+  | Some (l, s, i) => [1; v l; v s; i] | None => [0] end.
+Definition r_revpair_decode (lock secret index : Z) : list Z :=
+  if (lock <? q_bls) && (secret <? q_bls) then
+    match revpair_decode q_bls sha3_256_z enc_scalar (fq lock) (fq secret) index with
+    | Some (l, s, i) => [1; v l; v s; i] | None => [0] end
+  else [0].
+Definition r_channel_id (mr cr pkb ma ca : list Z) : list Z := channel_id sha3_256_z mr cr pkb ma ca.
+Definition r_context (bs : list Z) : list Z := context sha3_256_z bs.
+Definition r_sha3_challenge (bs : list Z) : list Z := [v (bytes_to_scalar_reduced (K:=K) (sha3_256_z bs))].
+Definition r_complete_payment (sk : skey K) (pk : pkey K) (hr gr com st urand lock bf : Z) : list Z :=
+  match complete_payment sk pk (fq hr) (fq gr) (mkU (fq com) (fq st)) (fq urand) (fq lock) (fq bf) with
+  | inl s => 1 :: vsig s | inr u => [0; v (u_com u); v (u_state u)] end.
+
+(** key generation over streams: g1 and g2 are taken as the basis (1); the scalar stream is what matters *)
+From ZK Require Import Model.Keygen.
+Definition r_keygen_stream (n : Z) (scalars : list Z) : list Z :=
+  match keygen_stream (Z.to_nat n) [fq 1] (fqs scalars) [fq 1] with
+  | Some (sk, pk) => [1; v (sk_x sk)] ++ vs (sk_ys sk) ++ [v (sk_x1 sk); v (pk_x2 pk)] ++ vs (pk_y1s pk) ++ vs (pk_y2s pk)
+                     ++ [b2z (sk_wf sk); b2z (pk_wf pk)]
+  | None => [0]
+  end.
